@@ -222,7 +222,9 @@ GLeaves == <<
     With(DictF(StringF, IntF), [required |-> TRUE, default |-> D1(<<"k">>, IntV(1))]),
     \* a list default written as a tuple (assignment accepts tuples and stores a list)
     With(ListF(With(IntF, [hasmin |-> TRUE, min |-> 0])), [default |-> TupleV(<<IntV(1), IntV(2)>>)]),
-    With(ListF(NoF), [default |-> TupleV(<<IntV(1), IntV(2)>>)]) >>
+    With(ListF(NoF), [default |-> TupleV(<<IntV(1), IntV(2)>>)]),
+    \* a map with unconstrained keys (any hashable: numbers, tuples) and typed values
+    With(DictF(NoF, With(IntF, [hasmin |-> TRUE, min |-> 0])), [default |-> DictV(<<>>)]) >>
 GSubs == <<
     SchemaF(<< <<"x", With(IntF, [default |-> IntV(1), required |-> TRUE])>>, <<"y", With(StringF, [choices |-> << <<"u">>, <<"v">> >>])>> >>),
     [validators |-> <<"x_not_3">>] @@ SchemaF(<< <<"x", With(IntF, [default |-> IntV(1)])>> >>),
@@ -234,7 +236,7 @@ GSubs == <<
     [flagkey |-> "enabled"] @@ SchemaF(<< <<"x", With(IntF, [hasmin |-> TRUE, min |-> 1, hasmax |-> TRUE, max |-> 9, required |-> TRUE, default |-> IntV(2)])>>,
                                           <<"enabled", With(BoolF, [default |-> BoolV(FALSE)]) @@ [flag |-> TRUE]>> >>) >>
 GNodes == GLeaves \o GSubs
-NG == 32
+NG == 33
 ASSUME NG = Len(GNodes)
 GFirst == SchemaF(<< <<"a", With(IntF, [hasmin |-> TRUE, min |-> 1, hasmax |-> TRUE, max |-> 9, default |-> IntV(5)])>>,
                      <<"s", With(StringF, [tcase |-> "lower", stripm |-> "ws", default |-> s(<<"a", "b">>)])>> >>)
@@ -251,7 +253,7 @@ MCFamilyAt2(i) == IF i = 1 THEN GFirst
                   ELSE SchemaF(<< <<"a", GNodes[((i - 2) \div NG) + 1]>>, <<"s", GNodes[((i - 2) % NG) + 1]>> >>)
 \* three keys: a sub-schema, a leaf, anything
 NS3 == 7   \* sub-schema shapes
-NL3 == 25  \* leaf shapes
+NL3 == 26  \* leaf shapes
 ASSUME NS3 = Len(GSubs) /\ NL3 = Len(GLeaves)
 MCFamilyN3 == MCFamilyN2 + NS3 * NL3 * NG
 MCFamilyAt3(i) == IF i <= MCFamilyN2 THEN MCFamilyAt2(i)
